@@ -93,11 +93,13 @@ pub struct Fail {
     pub minimal: Option<Value>,
     /// name of the sub-check whose replay format `minimal` uses (default: the failing one)
     pub minimal_sub: Option<&'static str>,
+    /// the failure was seen on a thread restricted to this many CPUs (0 = unrestricted)
+    pub cpus: usize,
 }
 
 impl Fail {
     pub fn new(key: impl Into<String>, msg: impl Into<String>) -> Self {
-        Fail { key: key.into(), msg: msg.into(), minimal: None, minimal_sub: None }
+        Fail { key: key.into(), msg: msg.into(), minimal: None, minimal_sub: None, cpus: 0 }
     }
     pub fn with_minimal(mut self, v: Value) -> Self {
         self.minimal = Some(v);
@@ -191,6 +193,32 @@ pub trait Sub: Sync {
     /// how many enumerated cases a worker takes at a time (1 for expensive cases)
     fn batch(&self) -> usize {
         256
+    }
+    /// May the pool run two of this sub-check's workers on threads restricted to one and to two
+    /// CPUs (so that a sixteenth of the cases each see `available_parallelism()` = 1 and = 2)?
+    /// Only for sub-checks whose cases do not fan out over threads themselves.
+    fn restrictable(&self) -> bool {
+        false
+    }
+}
+
+thread_local! {
+    /// number of CPUs the current pool worker is restricted to (0 = not restricted)
+    static WORKER_CPUS: std::cell::Cell<usize> = const { std::cell::Cell::new(0) };
+}
+
+/// Called at the start of pool worker `w`: workers 0 and 1 of a restrictable sub-check confine
+/// themselves to one CPU and to two CPUs.
+fn restrict_worker<S: Sub>(sub: &S, w: usize, workers: usize) {
+    if sub.restrictable() && workers >= 8 && w < 2 && crate::util::restrict_this_thread(w + 1, 2 * w) {
+        WORKER_CPUS.with(|c| c.set(w + 1));
+    }
+}
+
+fn note_restricted(stats: &mut Stats) {
+    let k = WORKER_CPUS.with(|c| c.get());
+    if k > 0 && stats.evaluations > 0 {
+        stats.add(&format!("cases_run_on_a_worker_restricted_to_{}_cpu", k), stats.evaluations);
     }
 }
 
@@ -295,10 +323,14 @@ pub fn panic_site(msg: &str) -> String {
 }
 
 fn checked<S: Sub>(sub: &S, case: &S::Case, st: &mut Stats) -> Result<(), Fail> {
-    match no_panic(|| sub.check(case, st)) {
+    let r = match no_panic(|| sub.check(case, st)) {
         Ok(r) => r,
         Err(p) => Err(Fail::new(format!("{}:panic:{}", sub.name(), panic_site(&p)), format!("panicked: {}", p))),
-    }
+    };
+    r.map_err(|mut f| {
+        f.cpus = WORKER_CPUS.with(|c| c.get());
+        f
+    })
 }
 
 // ------------------------------------------------------------------ drivers
@@ -320,7 +352,11 @@ fn record_violation(env: &Env, report: &mut Report, sub: &str, mut fail: Fail, c
         None => {
             let dir = env.verif_dir.join("replays").join(env.prop);
             let _ = std::fs::create_dir_all(&dir);
-            let body = json!({"property": env.prop, "sub": sub, "key": fail.key, "message": fail.msg, "case": case});
+            let mut body = json!({"property": env.prop, "sub": sub, "key": fail.key, "message": fail.msg, "case": case});
+            if fail.cpus > 0 {
+                // seen on a worker confined to this many CPUs: the replay confines itself likewise
+                body["cpus"] = json!(fail.cpus);
+            }
             let text = serde_json::to_string_pretty(&body).unwrap();
             let p = dir.join(format!("{}-{:016x}.json", sub, fnv(text.as_bytes())));
             let _ = std::fs::write(&p, text);
@@ -347,6 +383,7 @@ pub fn drive<S: Sub>(env: &Env, sub: &S, cases: u64, report: &mut Report) {
             let results = &results;
             scope.spawn(move || {
                 let strategy = sub.strategy(env);
+                restrict_worker(sub, w, workers);
                 let seed = mix(env.seed ^ mix(fnv(sub.name().as_bytes()) ^ mix(w as u64 + 1)));
                 let config = Config {
                     cases: share as u32,
@@ -400,7 +437,8 @@ pub fn drive<S: Sub>(env: &Env, sub: &S, cases: u64, report: &mut Report) {
                         }
                     }
                 });
-                let Local { stats, known, last_fail, .. } = local.into_inner();
+                let Local { mut stats, known, last_fail, .. } = local.into_inner();
+                note_restricted(&mut stats);
                 let failure = match res {
                     Ok(()) => None,
                     Err(TestError::Fail(_, case)) => {
@@ -414,6 +452,7 @@ pub fn drive<S: Sub>(env: &Env, sub: &S, cases: u64, report: &mut Report) {
                         std::process::exit(2);
                     }
                 };
+                note_restricted(&mut stats);
                 results.lock().unwrap().push((stats, failure, known));
             });
         }
@@ -449,11 +488,12 @@ where
     let source = Mutex::new(cases);
     let results: Mutex<Vec<(Stats, Option<(Fail, S::Case)>, BTreeMap<String, (String, u64)>)>> = Mutex::new(vec![]);
     std::thread::scope(|scope| {
-        for _ in 0..workers {
+        for w in 0..workers {
             let stop = &stop;
             let source = &source;
             let results = &results;
             scope.spawn(move || {
+                restrict_worker(sub, w, workers);
                 let mut stats = Stats::default();
                 let mut failure = None;
                 let mut known: BTreeMap<String, (String, u64)> = BTreeMap::new();
@@ -536,7 +576,22 @@ pub fn replay_file(env: &Env, subs: &[&dyn DynSub], path: &Path, report: &mut Re
     let case = v.get("case").ok_or("replay file has no \"case\"")?;
     let sub = subs.iter().find(|s| s.dyn_name() == subname).ok_or(format!("no sub-check named {}", subname))?;
     let mut st = Stats::default();
-    let r = sub.replay_value(case, &mut st);
+    let cpus = v.get("cpus").and_then(|c| c.as_u64()).unwrap_or(0) as usize;
+    let r = if cpus > 0 {
+        // the failure was seen on a worker confined to `cpus` CPUs: replay it the same way
+        std::thread::scope(|sc| {
+            sc.spawn(|| {
+                if crate::util::restrict_this_thread(cpus, 0) {
+                    WORKER_CPUS.with(|c| c.set(cpus));
+                }
+                sub.replay_value(case, &mut st)
+            })
+            .join()
+            .unwrap_or_else(|_| Err(Fail::new("harness:replay", "the replay thread panicked")))
+        })
+    } else {
+        sub.replay_value(case, &mut st)
+    };
     report.stats.merge(st);
     report.corpus_replayed += 1;
     let e = report.per_sub.entry(format!("{}(replay)", subname)).or_insert((0, 0));
